@@ -84,23 +84,23 @@ Section FetchProofs.
 
   Lemma read_payload_data d : has_data d = true -> exists s, fst (read_payload d) = Val s.
   Proof.
-    unfold has_data, read_payload.
+    unfold has_data, read_payload, stream_read.
     destruct (d_string d); destruct (d_file d) as [f|]; try destruct (fo_read f);
       simpl; intros H; try discriminate; eauto.
   Qed.
 
-  (* a stream whose read() fails with one of the converted stream errors *)
-  Definition dies_with_io (d : fdict) : bool :=
+  (* a stream whose read() fails with an Exception, of any class *)
+  Definition dies_with_exception (d : fdict) : bool :=
     match d_string d, d_file d with
-    | None, Some f => match fo_read f with ReadRaises e => e_is_io e | ReadOk _ => false end
+    | None, Some f => match fo_read f with ReadRaises e => e_is_exception e | ReadOk _ => false end
     | _, _ => false
     end.
 
-  (* graceful: an Exception raised by the call, an answer carrying data, or a stream that dies with an I/O,
-     HTTP or decompression error never escapes a consumer, and "treated as absent" always comes with a log *)
+  (* graceful: an Exception raised by the call, an answer carrying data, or a stream whose read() raises an
+     Exception of any class never escapes a consumer, and "treated as absent" always comes with a log *)
   Lemma consume_graceful c url :
     (exists e, fetcher url = FRaise e /\ e_is_exception e = true) \/
-    (exists d, fetcher url = FDict d /\ (has_data d = true \/ dies_with_io d = true)) ->
+    (exists d, fetcher url = FDict d /\ (has_data d = true \/ dies_with_exception d = true)) ->
     exists v ev logs, consume fetcher c url = (Val v, ev, logs) /\ (v = None -> logs <> []).
   Proof.
     intros [[e [Hf He]]|[d [Hf [Hd|Hd]]]]; unfold consume, fetch; rewrite Hf.
@@ -114,20 +114,21 @@ Section FetchProofs.
         destruct (read_payload (setdefaults url d)) as [r ev] eqn:Hr. simpl in Hs. subst r.
         destruct (d_file (setdefaults url d)); simpl;
           eexists; eexists; eexists; split; try reflexivity; intros H; discriminate.
-    - unfold dies_with_io in Hd. unfold read_payload.
+    - unfold dies_with_exception in Hd. unfold read_payload, stream_read.
       change (d_string (setdefaults url d)) with (d_string d).
       change (d_file (setdefaults url d)) with (d_file d).
       destruct (d_string d); [discriminate|]. destruct (d_file d) as [f|]; [|discriminate].
-      destruct (fo_read f) as [s|e]; [discriminate|].
+      destruct (fo_read f) as [s|e]; [discriminate|]. rewrite Hd.
       destruct (checks_css_mime c && negb (is_css (mime_value (setdefaults url d)))).
       + simpl. eexists; eexists; eexists; split; try reflexivity; intros _; discriminate.
-      + destruct c; simpl; try (destruct (e_name e =? "StopIteration")); simpl; rewrite ?Hd; simpl;
+      + destruct c; simpl;
           eexists; eexists; eexists; split; try reflexivity; intros H; discriminate.
   Qed.
 
   (* exactly what escapes: (1) a BaseException outside Exception, always; and for every consumer but the
      font one (2) the AttributeError of a non-dict answer, (3) the KeyError of an answer without data,
-     (4) what file_obj.read() raises when it is not one of the converted stream errors.  Nothing else. *)
+     (4) a BaseException outside Exception raised by file_obj.read().  Nothing else: no Exception raised by
+     the fetcher or by the stream it returned. *)
   Lemma consume_escape_cases c url x ev logs :
     consume fetcher c url = (Exc x, ev, logs) ->
     (exists e, fetcher url = FRaise e /\ e_is_exception e = false /\ x = Raised e) \/
@@ -136,8 +137,7 @@ Section FetchProofs.
     (catches c (KeyError "file_obj") = false /\
        exists d, fetcher url = FDict d /\ d_string d = None /\ d_file d = None /\ x = KeyError "file_obj") \/
     (exists d f e, fetcher url = FDict d /\ d_string d = None /\ d_file d = Some f /\
-                   fo_read f = ReadRaises e /\ x = Raised e /\ e_is_io e = false /\
-                   catches c (Raised e) = false).
+                   fo_read f = ReadRaises e /\ x = Raised e /\ e_is_exception e = false).
   Proof.
     unfold consume, fetch. destruct (fetcher url) as [e| |d] eqn:Hf.
     - destruct (e_is_exception e) eqn:He.
@@ -148,47 +148,46 @@ Section FetchProofs.
       assert (Hfl : d_file (setdefaults url d) = d_file d) by reflexivity.
       destruct (checks_css_mime c && negb (is_css (mime_value (setdefaults url d)))) eqn:Hc.
       + destruct (d_file (setdefaults url d)); simpl; intros H; inversion H.
-      + unfold read_payload. rewrite Hs, Hfl.
+      + unfold read_payload, stream_read. rewrite Hs, Hfl.
         destruct (d_string d) as [s|] eqn:Hstr.
         * destruct (d_file d); simpl; intros H; inversion H.
         * destruct (d_file d) as [f|] eqn:Hfile.
           -- destruct (fo_read f) as [s|e] eqn:Hrd.
              ++ simpl. intros H; inversion H.
-             ++ destruct (e_is_io e) eqn:Hio.
-                ** destruct c; simpl; try (destruct (e_name e =? "StopIteration") eqn:Hn; simpl);
-                     rewrite ?Hio; simpl; intros H; inversion H.
-                ** destruct c; simpl; try (destruct (e_name e =? "StopIteration") eqn:Hn; simpl);
-                     rewrite ?Hio; simpl; try (destruct (e_is_exception e) eqn:He; simpl);
-                     intros H; inversion H; subst;
-                     right; right; right; exists d, f, e; repeat split; auto.
+             ++ destruct (e_is_exception e) eqn:He.
+                ** destruct c; simpl; intros H; inversion H.
+                ** destruct (e_is_io e) eqn:Hio.
+                   --- destruct c; simpl; rewrite ?Hio; simpl; intros H; inversion H.
+                   --- destruct c; simpl; rewrite ?Hio; simpl; rewrite ?He; simpl;
+                         intros H; inversion H; subst;
+                         right; right; right; exists d, f, e; repeat split; auto.
           -- simpl. destruct c; simpl; intros H; inversion H; subst;
                right; right; left; (split; [reflexivity|]); exists d; auto.
   Qed.
 
-  (* REPAIRED (was the refuted statement of finding fetch-body-read-error-escapes): a stream that dies with
-     a time-out, a reset, a truncated gzip body... is a fetching error for every consumer: the resource is
-     skipped, the failure logged, the stream closed *)
-  Lemma read_io_error_is_fetching_error c url d f e :
+  (* REPAIRED (were the refuted statements of the findings fetch-body-read-error-escapes and
+     fetch-body-read-other-error-escapes): a stream whose read() raises an Exception of any class - a time-out,
+     a reset, a truncated gzip body, the ValueError of a closed file, the ProtocolError of a urllib3 stream -
+     is a fetching error for every consumer: the resource is skipped, the failure logged, the stream closed *)
+  Lemma read_error_is_fetching_error c url d f e :
     fetcher url = FDict d -> d_string d = None -> d_file d = Some f -> fo_read f = ReadRaises e ->
-    e_is_io e = true -> e_name e <> "StopIteration" ->
+    e_is_exception e = true ->
     exists ev logs, consume fetcher c url = (Val None, ev, logs) /\ logs <> [] /\ In (Closed (fo_id f)) ev.
   Proof.
-    intros Hf Hs Hfile Hr Hio Hname. apply String.eqb_neq in Hname. unfold consume, fetch, read_payload. rewrite Hf.
+    intros Hf Hs Hfile Hr He. unfold consume, fetch, read_payload, stream_read. rewrite Hf.
     change (d_string (setdefaults url d)) with (d_string d).
     change (d_file (setdefaults url d)) with (d_file d).
-    rewrite Hs, Hfile, Hr.
+    rewrite Hs, Hfile, Hr, He.
     destruct (checks_css_mime c && negb (is_css (mime_value (setdefaults url d)))).
     - simpl. eexists; eexists; split; [reflexivity|]. split; [discriminate|]. simpl. auto.
-    - destruct c; simpl; rewrite ?Hname; simpl; rewrite Hio; simpl;
+    - destruct c; simpl;
         (eexists; eexists; split; [reflexivity|]; split; [discriminate|]; simpl; auto).
   Qed.
 
 End FetchProofs.
 
-(* STILL REFUTED after the repair (residual of fetch-body-read-error-escapes): the conversion covers EOFError,
-   HTTPException, OSError and zlib.error only; any other Exception raised by file_obj.read() - a ValueError
-   ("I/O operation on closed file"), the ProtocolError of a urllib3 stream - still escapes the image, sheet and
-   attachment consumers and ends the render.  Witness replayed on the implementation by consume-direct. *)
+(* the witness of the former refuted statement: read() raising ValueError("I/O operation on closed file") -
+   not one of the classes of the except clause of fetch() - is now logged and skipped by every consumer *)
 Definition value_error : exn :=
   {| e_name := "ValueError"; e_msg := "I/O operation on closed file"; e_is_exception := true; e_is_io := false |}.
 Definition odd_stream : fret :=
@@ -196,17 +195,21 @@ Definition odd_stream : fret :=
            d_file := Some {| fo_id := 1; fo_read := ReadRaises value_error; fo_close_raises := false |};
            d_mime := Some (Some "image/png"); d_redirected := None |}.
 
-Lemma read_other_error_escapes_refuted :
-  exists (fetcher : string -> fret) (url : string) (e : exn),
-    e_is_exception e = true /\
-    (forall c, catches c (Raised e) = false -> c <> CLinkSheet ->
-               exists ev, consume fetcher c url = (Exc (Raised e), ev, [])) /\
-    (exists ev, consume fetcher CImage url = (Exc (Raised e), ev, []) /\ In (Closed 1) ev).
-Proof.
-  exists (fun _ => odd_stream), "http://x/a.png", value_error. split; [reflexivity|]. split.
-  - intros c Hc Hl. destruct c; try contradiction; try discriminate; eexists; reflexivity.
-  - eexists. split; [reflexivity|]. simpl. auto.
-Qed.
+Example read_other_error_example :
+  consume (fun _ => odd_stream) CImage "http://x/a.png" =
+    (Val None, [Called "http://x/a.png"; ReadEv 1; Closed 1], [LogError "Failed to load image" "http://x/a.png"]) /\
+  consume (fun _ => odd_stream) CAttachment "http://x/a.png" =
+    (Val None, [Called "http://x/a.png"; ReadEv 1; Closed 1], [LogError "Failed to load attachment" "http://x/a.png"]).
+Proof. split; reflexivity. Qed.
+
+(* what still travels: a BaseException outside Exception raised by read() (the stream is closed all the same) *)
+Example read_keyboard_interrupt_example :
+  let ki := {| e_name := "KeyboardInterrupt"; e_msg := ""; e_is_exception := false; e_is_io := false |} in
+  consume (fun _ => FDict {| d_string := None;
+                             d_file := Some {| fo_id := 1; fo_read := ReadRaises ki; fo_close_raises := false |};
+                             d_mime := None; d_redirected := None |}) CFontSrc "u" =
+    (Exc (Raised ki), [Called "u"; ReadEv 1; Closed 1], []).
+Proof. reflexivity. Qed.
 
 (* satisfiability of the hypotheses above *)
 Example fetch_example :
